@@ -417,6 +417,16 @@ func (e *env) run(kind string) (bool, string) {
 			e.inject(message.NonConfirmable, codes.Content, e.nextMID(), tok, message.Options{{ID: message.ETag, Value: et}, {ID: message.Observe, Value: []byte{byte(10 + e.nseq)}}}, []byte("nnnnnnnnnnnnnnnn"))
 		}
 		return true, "notified"
+	case "pingWriteFail":
+		// the ping cannot be written (a transient network error): AsyncPing reports the error and leaves nothing behind - and gives
+		// its message back to the pool once
+		e.u.Sess.FailNext.Store(1)
+		_, err := cc.AsyncPing(func() {})
+		e.u.Sess.FailNext.Store(0)
+		if err == nil {
+			return true, "ok"
+		}
+		return true, "err"
 	case "pingForget":
 		// a fire-and-forget liveness probe: AsyncPing whose cancel function is never called, the peer stays silent - the
 		// housekeeping sweep is the only thing that ends its continuation (after the retransmissions are exhausted)
